@@ -31,7 +31,7 @@ pub fn run_comp(op: &str, a: &[&str]) -> String {
         // algorithm components (comp_parse.rs): cf / lm (no format), bel / bin / sbin / fp TY FMT ..
         "cf" => comp_parse::op_cf(a),
         "lm" => comp_parse::op_lm(a),
-        "bel" | "bin" | "sbin" | "fp" => {
+        "bel" | "bin" | "sbin" | "fp" | "sl" => {
             let mut v: Vec<&str> = vec![op, a[0]];
             v.extend_from_slice(&a[2..]);
             crate::dispatch_alg(crate::parse_fmt(a[1]), &v).unwrap_or_else(|| "nofmt".to_string())
